@@ -858,7 +858,7 @@ def model_compare(cases, obs, tag):
              "From Osmo Require Import Base.Obs C13.Corr.\nOpen Scope Z_scope.\n"
              "Definition cases : list case := [\n  %s ].\n"
              "Definition M := Eval vm_compute in mismatches case_ok cases.\nPrint M.\n" % body)
-        items.append(("C13_%s_%d" % (tag, k), v))
+        items.append(("C13_%s_%d_%d" % (tag, os.getpid(), k), v))     # pid: concurrent runs of this check must not share file names
     res = common.coq_eval_many(items)
     bad, notes = [], []
     for sh, (rc, o) in zip(shards, res):
